@@ -123,6 +123,37 @@ CLAIMED = {
              "the property's hand-offs therefore assume the next request's bytes are not yet buffered (one-outstanding client).",
         design="6/C05", technique="Coq proof (rest-is-suffix through drive/parse/schedule) + differential execution of conversion chains with gated client",
         note="stream-parser part not yet proved (partial)."),
+    "C07": dict(
+        text="Proof on the connection model (Async/Conn.v: Token::run, parse_request, Request::{poll_input, poll_output, writeable, record_boundary, "
+             "close}, StreamWriter writes, scripted handlers/transport/gated client), partial: C07_epilogue is proved for every transport "
+             "behaviour - close writes, after skipping to a record boundary without writing, exactly the pending management replies, the empty "
+             "Stdout and Stderr records and one EndRequest with the exit status' protocol/application status and the request id. The one-call and "
+             "reuse clauses are decided by the correspondence check (the model agrees with the real Token::run on every generated connection: "
+             "handler events, transport log, bytes consumed, poll count) + an independent oracle that decodes the transport log; these clauses "
+             "found defect F3 (leftover filling the buffer => connection dropped despite KeepConn), repaired in /repo fd29a7b; its replay is in "
+             "corpus/C07 and runs first. Partial as to the runtime: executor/waker protocol, rustc's async lowering, futures-util select/Mutex are "
+             "modelled by contract.",
+        design="6/C07, 13.3", technique="Coq proof on an executable connection model (write path, epilogue) + differential execution of scripted connections on a deterministic executor with log-decoding oracle",
+        note="one-call/reuse clauses not yet proved (correspondence + oracle only); single task; handlers await each I/O op to completion."),
+    "C10": dict(
+        text="Proof, partial: for a writer's write_all the transport log grows by exactly the records of the data's <= 65535-byte chunks "
+             "(C10_exact), for every way the transport splits or delays the vectored write incl. the first-slice fallback (C10_any_split); each "
+             "record is complete and well-formed with the writer's type, the request id, padding < 8 and body+padding a multiple of 8 "
+             "(C10_record_wf); payloads concatenate to exactly the written bytes (C10_payload_is_data) and decode back (C10_decodes_back); the "
+             "parser's own replies are flushed under the same lock discipline (C10_poll_output). The mutual exclusion of several writers on "
+             "separately polled tasks is modelled (Async/Writer.v: lock owner, per-record state) and decided by the correspondence check: 1..3 "
+             "writers incl. clones + the request's reply flushing polled in scripted orders over cutting/Pending transports; proof pending.",
+        design="6/C10", technique="Coq proof (write loops: exact bytes for every transport split) + differential execution of scripted multi-writer poll orders with record-decoding oracle",
+        note="multi-writer exclusion not yet proved (model + correspondence); futures-util Mutex modelled as owner field; fairness not claimed."),
+    "C12": dict(
+        text="Proof, partial: for every write script (zero-length writes and errors at any call index included) write_all either writes everything or "
+             "fails having written only a prefix, reporting the failure (C12_write_all); a handler's stream write leaves a prefix of the well-formed "
+             "record sequence (C12_writer_prefix). Termination without panic/spin for EOF at any byte offset and faults at any call index, 'no handler "
+             "for an incomplete preamble' and 'unexpected-EOF instead of a short success' are decided by the correspondence check (EOF at every byte "
+             "offset of short connections, a read error at every read index, a write error/zero write at every write index) + oracle; the "
+             "totality proof of the connection model is in progress.",
+        design="6/C12", technique="Coq proof (write path under faults) + exhaustive fault-position enumeration per scripted connection through model and crate",
+        note="totality of the whole task not yet proved (correspondence + oracle); handlers propagate write errors."),
 }
 
 PENDING = {}
